@@ -30,8 +30,8 @@ def content_bytes(cid):
 
 
 class Child:
-    def __init__(self, fasta):
-        self.p = subprocess.Popen([sys.executable, str(CHILD), str(common.REPO / "src"), str(fasta)], stdin=subprocess.PIPE, stdout=subprocess.PIPE,
+    def __init__(self, fasta, mode="each"):
+        self.p = subprocess.Popen([sys.executable, str(CHILD), str(common.REPO / "src"), str(fasta), mode], stdin=subprocess.PIPE, stdout=subprocess.PIPE,
                                   stderr=subprocess.DEVNULL, text=True, bufsize=1)
         self.pending = None      # label of the op the child is blocked on
         self.result = None
@@ -97,7 +97,8 @@ def model_label(real, prev_model):
 class World:
     """one scenario executed on the real code in a scratch directory, in lock step with a list of model ops"""
 
-    def __init__(self, scratch, tag):
+    def __init__(self, scratch, tag, mode="each"):
+        self.mode = mode
         self.dir = scratch.path / f"w{tag}"
         self.dir.mkdir()
         self.fasta = self.dir / "x.fa"
@@ -126,7 +127,7 @@ class World:
         self.ops.append({"op": "del" + which}); self.labels.append("env")
 
     def spawn(self):
-        c = Child(self.fasta)
+        c = Child(self.fasta, self.mode)
         c.prev = None
         self.children.append(c)
         self.ops.append({"op": "spawn"}); self.labels.append("env")
@@ -230,7 +231,7 @@ def judge(world, out, stream, scenario):
     """oracle on the real results + correspondence with the model on labels / final fs / result classification"""
     atomic = detect_protocol()
     ft, at = totals(atomic)
-    inp = {"scenario": scenario, "ops": world.ops, "atomic_protocol_in_source": atomic}
+    inp = {"scenario": scenario, "ops": world.ops, "atomic_protocol_in_source": atomic, "write_mode": world.mode}
     # ---- oracle: every finished auto_load failed loudly or returned exactly the rendering of the then-current content
     bad = None
     for p, (res, cid_then) in world.results.items():
@@ -245,13 +246,13 @@ def judge(world, out, stream, scenario):
         model_labels = [s["label"] for s in m]
         real_labels = [l for l in world.labels]
         model_last = m[-1] if m else None
-        real_view = {"labels": real_labels, "fs": world.fs_state(), "good": bad is None}
+        real_view = {"labels": real_labels, "fs": (world.fs_state() if world.mode == "each" else "not-compared (buffered writes)"), "good": bad is None}
         fs_m = None
         if model_last:
             def cv(f):
                 return None if f is None else [f[0], f[1] == f[2], f[3]]
             fs_m = {"fai": cv(model_last["fai"]), "agp": cv(model_last["agp"])}
-        model_view = {"labels": model_labels, "fs": fs_m, "good": (model_last["safe"] if model_last else True)}
+        model_view = {"labels": model_labels, "fs": (fs_m if world.mode == "each" else "not-compared (buffered writes)"), "good": (model_last["safe"] if model_last else True)}
         out.compare(stream, inp, real_view, model_view, key)
     else:
         out.case(stream, inp, key)
@@ -272,7 +273,9 @@ def scenario_history(rng, sc, tag, length):
             if k == "tick":
                 w.tick()
             elif k == "rewrite":
-                w.tick(); w.rewrite()
+                if rng.random() < 0.5:
+                    w.tick()          # otherwise the FASTA is rewritten within the same timestamp as the last cache write
+                w.rewrite()
             elif k == "delfai":
                 w.delete("fai")
             elif k == "delagp":
@@ -284,14 +287,16 @@ def scenario_history(rng, sc, tag, length):
         w.close()
 
 
-def scenario_crash(rng, sc, tag, prefix, k):
-    w = World(sc, tag)
+def scenario_crash(rng, sc, tag, prefix, k, mode="each"):
+    w = World(sc, tag, mode)
     try:
         for a in prefix:
             if a == "tick":
                 w.tick()
             elif a == "rewrite":
                 w.tick(); w.rewrite()
+            elif a == "rewrite-same-tick":
+                w.rewrite()
             elif a == "load":
                 p = w.spawn(); w.run_to_end(p)
         p = w.spawn()
@@ -315,6 +320,8 @@ def scenario_interleave(rng, sc, tag, prefix, nproc, schedule):
                 w.tick()
             elif a == "rewrite":
                 w.tick(); w.rewrite()
+            elif a == "rewrite-same-tick":
+                w.rewrite()
             elif a == "load":
                 p = w.spawn(); w.run_to_end(p)
         ps = [w.spawn() for _ in range(nproc)]
@@ -330,7 +337,7 @@ def scenario_interleave(rng, sc, tag, prefix, nproc, schedule):
         w.close()
 
 
-PREFIXES = [[], ["load", "tick"], ["load", "tick", "rewrite", "tick"]]
+PREFIXES = [[], ["load", "tick"], ["load", "tick", "rewrite", "tick"], ["load", "rewrite-same-tick"]]
 
 
 def run(ctx):
@@ -344,10 +351,17 @@ def run(ctx):
             judge(w, out, "histories", d)
         # every crash point of an indexing run, from cold / warm-then-stale starts
         maxk = 16
-        for prefix in (PREFIXES if ctx.thorough else [PREFIXES[0], PREFIXES[2]]):
+        for prefix in (PREFIXES if ctx.thorough else [PREFIXES[0], PREFIXES[2], PREFIXES[3]]):
             for k in range(0, maxk):
                 w, d = scenario_crash(rng, sc, next(tag), prefix, k)
                 judge(w, out, "crash-points", d)
+                if d["steps_done"] < k:
+                    break
+        # the same crash points when written data only reaches the file on close() (what buffered I/O does to small files)
+        for prefix in ([PREFIXES[0], PREFIXES[2]] if ctx.thorough else [PREFIXES[0]]):
+            for k in range(0, maxk):
+                w, d = scenario_crash(rng, sc, next(tag), prefix, k, mode="buffered")
+                judge(w, out, "crash-points-buffered-writes", d)
                 if d["steps_done"] < k:
                     break
         out.exhaustive = True
@@ -379,9 +393,10 @@ def search(ctx, broken):
         with F.Scratch() as sc:
             tag = itertools.count(1000)
             for prefix in PREFIXES:
-                for k in range(0, 18):
-                    w, d = scenario_crash(ctx.rng, sc, next(tag), prefix, k)
-                    judge(w, ctx.out, "search-crash-points", d)
+                for mode in ("each", "buffered"):
+                    for k in range(0, 18):
+                        w, d = scenario_crash(ctx.rng, sc, next(tag), prefix, k, mode)
+                        judge(w, ctx.out, "search-crash-points", d)
             for _ in range(60):
                 s = [ctx.rng.choice([0, 1, "t"]) for _ in range(ctx.rng.randint(5, 30))]
                 w, d = scenario_interleave(ctx.rng, sc, next(tag), ctx.rng.choice(PREFIXES), 2, s)
